@@ -1969,6 +1969,13 @@ func c17RunRelay(p *c17TCPPlan, base string) ([]map[string]any, map[string]any, 
 			}
 		}
 	}
+	for _, d := range r.dialers {
+		// a stranger the relay answered had its own upstream connection greeted by the server,
+		// which may be the one the server adopted: nothing is promised then
+		if d.gotRep {
+			constrained = false
+		}
+	}
 	tA := time.Now()
 	hung := r.finishTransfer(constrained)
 	tB := time.Now()
